@@ -26,30 +26,21 @@ func findTypeMatchLoop(fn *ssa.Function, over ssa.Value, key ssa.Value, typeFiel
 	for _, lp := range loops {
 		var ia *ssa.IndexAddr
 		eachInstr(fn, func(b *ssa.BasicBlock, i int, in ssa.Instruction) {
-			if x, ok := in.(*ssa.IndexAddr); ok && lp.Body[b] && x.X == over {
+			if x, ok := in.(*ssa.IndexAddr); ok && lp.Body[b] && canonCell(x.X) == canonCell(over) {
 				ia = x
 			}
 		})
 		if ia == nil {
 			continue
 		}
-		if !rangeIndexLoop(lp) {
-			return nil, "the loop over the attribute list is not an ascending range loop"
+		idx, start, bound, isIdx := indexLoopInfo(lp)
+		if !isIdx {
+			return nil, "the loop over the attribute list is not an ascending counting loop"
 		}
-		// index is the range induction variable starting at -1+1 = 0
-		iff := lp.Header.Instrs[len(lp.Header.Instrs)-1].(*ssa.If)
-		inc := iff.Cond.(*ssa.BinOp).X.(*ssa.BinOp)
-		ph := inc.X.(*ssa.Phi)
-		startsAtZero := false
-		for _, e := range ph.Edges {
-			if c, ok := constInt(e); ok && c == -1 {
-				startsAtZero = true
-			}
-		}
-		if ia.Index != ssa.Value(inc) || !startsAtZero {
+		if ia.Index != idx || start != 0 {
 			return nil, "the loop does not visit the attributes in ascending order from the first"
 		}
-		if ln, ok := iff.Cond.(*ssa.BinOp).Y.(*ssa.Call); !ok || !isBuiltinCall(ln, "len") || ln.Call.Args[0] != over {
+		if ln, ok := bound.(*ssa.Call); !ok || !isBuiltinCall(ln, "len") || canonCell(ln.Call.Args[0]) != canonCell(over) {
 			return nil, "the loop bound is not the length of the attribute list"
 		}
 		// the type comparison
